@@ -54,7 +54,9 @@ type Ver struct {
 	Names    []string `json:"serverNames,omitempty"`
 	Cert     string   `json:"cert,omitempty"` // "" | v1 | v2 | cert-only-v1 | key-only-v1
 	CA       string   `json:"ca,omitempty"`   // "" | v1 | v2
-	BadEP    bool     `json:"unparsableEndpoint,omitempty"`
+	// Fail makes this version unappliable on top of its (valid) fields: "<sub-syncer>:<how>", see failKinds. The fields
+	// underneath stay valid, so clearing Fail is "repair only the failing field, keep every other change".
+	Fail string `json:"unappliable,omitempty"`
 }
 
 func (v *Ver) clone() *Ver {
@@ -83,7 +85,11 @@ func (v *Ver) String() string {
 	if v.Deleted {
 		return fmt.Sprintf("#%d %s DELETED", v.ID, v.Cluster)
 	}
-	return fmt.Sprintf("#%d %s servers=%v ann=%s schemas=%v policies=%d names=%v cert=%q ca=%q", v.ID, v.Cluster, v.Servers, v.Ann, v.Schemas, len(v.Policies), v.Names, v.Cert, v.CA)
+	f := ""
+	if v.Fail != "" {
+		f = " UNAPPLIABLE(" + v.Fail + ")"
+	}
+	return fmt.Sprintf("#%d %s servers=%v ann=%s schemas=%v policies=%d names=%v cert=%q ca=%q%s", v.ID, v.Cluster, v.Servers, v.Ann, v.Schemas, len(v.Policies), v.Names, v.Cert, v.CA, f)
 }
 
 type material struct {
@@ -102,9 +108,12 @@ func (v *Ver) Build(m *material) *proxyv1alpha1.UpstreamCluster {
 		}
 		c.Spec.Servers = append(c.Spec.Servers, srv)
 	}
-	if v.BadEP {
-		// accepted by validation (has an http scheme prefix) but not a parsable URL: the sync of this version fails half-way
-		c.Spec.Servers = append(c.Spec.Servers, proxyv1alpha1.UpstreamClusterServer{Endpoint: "http://%zz"})
+	kind, how := v.failKind()
+	switch kind {
+	case "endpoint": // not a usable URL: syncEndpoints fails after gates, flow control and secure serving were applied
+		c.Spec.Servers = append(c.Spec.Servers, proxyv1alpha1.UpstreamClusterServer{Endpoint: how})
+	case "endpoint-first": // as above, and the create path already fails while building the REST config
+		c.Spec.Servers = append([]proxyv1alpha1.UpstreamClusterServer{{Endpoint: how}}, c.Spec.Servers...)
 	}
 	c.Spec.ClientConfig.BearerToken = []byte("gw-token")
 	c.Spec.ClientConfig.Insecure = true
@@ -118,6 +127,12 @@ func (v *Ver) Build(m *material) *proxyv1alpha1.UpstreamCluster {
 		c.Annotations = map[string]string{features.FeatureGateAnnotationKey: strings.TrimPrefix(v.Ann, "gates:")}
 	case strings.HasPrefix(v.Ann, "gates+other:"):
 		c.Annotations = map[string]string{features.FeatureGateAnnotationKey: strings.TrimPrefix(v.Ann, "gates+other:"), "example.com/owner": "team-a"}
+	}
+	if kind == "gates" { // syncFeatureGate fails: nothing of this version is applied
+		if c.Annotations == nil {
+			c.Annotations = map[string]string{}
+		}
+		c.Annotations[features.FeatureGateAnnotationKey] = how
 	}
 	for _, s := range v.Schemas {
 		fs := proxyv1alpha1.FlowControlSchema{Name: s.Name}
@@ -160,7 +175,44 @@ func (v *Ver) Build(m *material) *proxyv1alpha1.UpstreamCluster {
 	if v.CA != "" {
 		c.Spec.SecureServing.ClientCAData = m.ca[v.CA].CertPEM
 	}
+	switch kind {
+	case "ca": // the secure-serving sync fails at the client CA, before the key pair is looked at
+		if how == "garbage" {
+			c.Spec.SecureServing.ClientCAData = []byte("this is not a certificate")
+		} else {
+			c.Spec.SecureServing.ClientCAData = []byte("-----BEGIN CERTIFICATE-----\nbm90IGEgY2VydGlmaWNhdGU=\n-----END CERTIFICATE-----\n")
+		}
+	case "keypair": // the secure-serving sync fails at the key pair, after the client CA was processed
+		if how == "mismatch" {
+			c.Spec.SecureServing.CertData = m.serving["v1"].CertPEM
+			c.Spec.SecureServing.KeyData = m.serving["v2"].KeyPEM
+		} else {
+			c.Spec.SecureServing.CertData = []byte("garbage")
+			c.Spec.SecureServing.KeyData = []byte("garbage")
+		}
+	}
 	return c
+}
+
+var failKinds = []string{
+	"gates:NoSuchGate=true", "gates:Tracing=maybe",
+	"ca:garbage", "ca:bad-pem",
+	"keypair:mismatch", "keypair:garbage",
+	"endpoint:http://%zz", "endpoint:http://[::1", "endpoint-first:http://%zz",
+}
+
+func (v *Ver) failKind() (kind, how string) {
+	if v.Fail == "" {
+		return "", ""
+	}
+	i := strings.IndexByte(v.Fail, ':')
+	return v.Fail[:i], v.Fail[i+1:]
+}
+
+// failClass names the sub-syncer of ClusterInfo.Sync at which this version fails.
+func (v *Ver) failClass() string {
+	k, _ := v.failKind()
+	return map[string]string{"gates": "feature-gates", "ca": "client-ca", "keypair": "key-pair", "endpoint": "endpoints", "endpoint-first": "endpoints"}[k]
 }
 
 func sortedCopy(s []string) []string {
